@@ -74,6 +74,48 @@ Definition prng_load_seed (s : prng_state) (st : option storage) (sys : list sys
       (s3, if (r =? 32)%Z then 0%Z else (-1)%Z, Some seed, sys3)
   end.
 
+(* ---- the storage descriptor in full: what the callbacks are called with -------------------
+   ascon_storage_t has page_size, erase_size, address, size, partial_writes and the two
+   callbacks.  [storage] above keeps the region size and the scripted callback results (it is
+   the record Model/Leak.v works with); [nvstorage] adds the remaining fields, and the _g
+   variants of save / load return, instead of the written bytes alone, the list of callback
+   calls in order, each with the arguments the callback receives: offset into the region,
+   byte count, and for write the bytes and the erase request.  PrngP.save_g_refines /
+   load_g_refines: forgetting geometry and arguments gives prng_save_seed / prng_load_seed. *)
+Record nvstorage := { nv_page : nat; nv_erase : nat; nv_addr : nat; nv_partial : bool; nv_cb : storage }.
+
+Inductive cb_call :=
+| CbRead (off len : nat)
+| CbWrite (off len : nat) (data : bytes) (erase : bool).
+
+(* (storage->erase_size != 0) *)
+Definition erase_request (st : nvstorage) : bool := negb (nv_erase st =? 0).
+
+Definition prng_save_seed_g (s : prng_state) (st : option nvstorage) (sys : list sys_answer)
+  : prng_state * Z * list cb_call * list sys_answer :=
+  match st with
+  | None => (s, (-1)%Z, [], sys)
+  | Some st =>
+    if st_size (nv_cb st) <? 32 then (s, (-1)%Z, [], sys)
+    else
+      let '(s1, seed, sys1) := prng_fetch s 32 sys in
+      (s1, if (st_write (nv_cb st) =? 32)%Z then 0%Z else (-1)%Z, [CbWrite 0 32 seed (erase_request st)], sys1)
+  end.
+
+Definition prng_load_seed_g (s : prng_state) (st : option nvstorage) (sys : list sys_answer)
+  : prng_state * Z * list cb_call * list sys_answer :=
+  match st with
+  | None => (s, (-1)%Z, [], sys)
+  | Some st =>
+    if st_size (nv_cb st) <? 32 then (s, (-1)%Z, [], sys)
+    else
+      let '(r, data) := st_read (nv_cb st) in
+      let s1 := if (r =? 32)%Z then prng_feed s (firstn 32 data) else s in
+      let '(s2, _, sys2) := prng_reseed s1 sys in
+      let '(s3, seed, sys3) := prng_fetch s2 32 sys2 in
+      (s3, if (r =? 32)%Z then 0%Z else (-1)%Z, [CbRead 0 32; CbWrite 0 32 seed (erase_request st)], sys3)
+  end.
+
 (* one-shot ascon_random: 1 if the system source is healthy, else 0 *)
 Definition random_oneshot (n : nat) (sys : list sys_answer) : bytes * Z * list sys_answer :=
   let '((seed, ok), sys') := next_sys sys in
